@@ -1441,6 +1441,11 @@ Tokens""")]),
          """        not in (None, "")
         else None""", """        not in frozenset((None, ""))
         else None""")]),
+    # ---- QUOTE-PAIR node-builder clause (C06, C02)
+    dict(id="setvalue-strips-every-layer", kind=B, props=["C06", "C02"], expect="QUOTE-PAIR", edits=[("ast_utils.py",
+         """        value = value[1:-1]""", """        value = value.strip(value[0])""")]),
+    dict(id="setvalue-neutral-slice-by-length", kind=N, props=["C06", "C02"], expect="silent", edits=[("ast_utils.py",
+         """        value = value[1:-1]""", """        value = value[1 : len(value) - 1]""")]),
     # ---- PARAM-KEPT (C07, C03)
     dict(id="paramkept-return-type-popped-in-merge", kind=B, props=["C07", "C03"], expect="PARAM-KEPT", edits=[("parser_utils.py",
          """    if "return_type" not in (target.get("returns") or iter(())):""",
